@@ -79,7 +79,9 @@ fn toy_hash(mode: u8, bytes: &[u8]) -> D32 {
         s[3] = toy_mix(s[3], s[0]);
     }
     let mut out = [0u8; 32];
-    if mode == 2 || (mode == 1 && s[0] % 4 != 0) {
+    if mode == 3 {
+        // all-zero digests
+    } else if mode == 2 || (mode == 1 && s[0] % 4 != 0) {
         out = [255u8; 32];
     } else {
         for k in 0..4 {
@@ -90,21 +92,34 @@ fn toy_hash(mode: u8, bytes: &[u8]) -> D32 {
 }
 
 pub struct ToyH<B: StarkField, const MODE: u8>(PhantomData<B>);
+/// modes 0..3 act on every digest; modes 4 and 5 are mode 0 except that `merge_with_int(seed, v)` is all-ones
+/// unless v is a multiple of 1000 (mode 4) / of 1001 (mode 5): a candidate is accepted exactly at the 1000th /
+/// 1001st PRNG call, on and just beyond the retry budget of `draw`
+const fn base_mode(mode: u8) -> u8 {
+    if mode >= 4 {
+        0
+    } else {
+        mode
+    }
+}
 impl<B: StarkField, const MODE: u8> Hasher for ToyH<B, MODE> {
     type Digest = D32;
     const COLLISION_RESISTANCE: u32 = 0;
     fn hash(bytes: &[u8]) -> D32 {
-        toy_hash(MODE, bytes)
+        toy_hash(base_mode(MODE), bytes)
     }
     fn merge(v: &[D32; 2]) -> D32 {
         let mut b = v[0].0.to_vec();
         b.extend_from_slice(&v[1].0);
-        toy_hash(MODE, &b)
+        toy_hash(base_mode(MODE), &b)
     }
     fn merge_with_int(s: D32, v: u64) -> D32 {
+        if (MODE == 4 && v % 1000 != 0) || (MODE == 5 && v % 1001 != 0) {
+            return D32([255u8; 32]);
+        }
         let mut b = s.0.to_vec();
         b.extend_from_slice(&v.to_le_bytes());
-        toy_hash(MODE, &b)
+        toy_hash(base_mode(MODE), &b)
     }
 }
 impl<B: StarkField, const MODE: u8> ElementHasher for ToyH<B, MODE> {
@@ -114,7 +129,7 @@ impl<B: StarkField, const MODE: u8> ElementHasher for ToyH<B, MODE> {
         for e in elements {
             b.extend_from_slice(&e.to_bytes());
         }
-        toy_hash(MODE, &b)
+        toy_hash(base_mode(MODE), &b)
     }
 }
 
@@ -135,12 +150,21 @@ fn dispatch<J: Job>(hasher: &str, field: &str, j: J) -> Option<J::Out> {
         ("toy0", "f64") => j.run::<A, ToyH<A, 0>>(),
         ("toy1", "f64") => j.run::<A, ToyH<A, 1>>(),
         ("toy2", "f64") => j.run::<A, ToyH<A, 2>>(),
+        ("toy3", "f64") => j.run::<A, ToyH<A, 3>>(),
+        ("toy4", "f64") => j.run::<A, ToyH<A, 4>>(),
+        ("toy5", "f64") => j.run::<A, ToyH<A, 5>>(),
         ("toy0", "f62") => j.run::<B, ToyH<B, 0>>(),
         ("toy1", "f62") => j.run::<B, ToyH<B, 1>>(),
         ("toy2", "f62") => j.run::<B, ToyH<B, 2>>(),
+        ("toy3", "f62") => j.run::<B, ToyH<B, 3>>(),
+        ("toy4", "f62") => j.run::<B, ToyH<B, 4>>(),
+        ("toy5", "f62") => j.run::<B, ToyH<B, 5>>(),
         ("toy0", "f128") => j.run::<C, ToyH<C, 0>>(),
         ("toy1", "f128") => j.run::<C, ToyH<C, 1>>(),
         ("toy2", "f128") => j.run::<C, ToyH<C, 2>>(),
+        ("toy3", "f128") => j.run::<C, ToyH<C, 3>>(),
+        ("toy4", "f128") => j.run::<C, ToyH<C, 4>>(),
+        ("toy5", "f128") => j.run::<C, ToyH<C, 5>>(),
         ("b3_256", "f64") => j.run::<A, Blake3_256<A>>(),
         ("b3_256", "f62") => j.run::<B, Blake3_256<B>>(),
         ("b3_256", "f128") => j.run::<C, Blake3_256<C>>(),
@@ -569,7 +593,7 @@ impl<'a> Job for RunJob<'a> {
             }
         }
         // --- sensitivity probes (not for the degenerate toy hashers)
-        if self.hasher != "toy1" && self.hasher != "toy2" && !items.iter().any(|i| matches!(i, Item::Panic(_))) {
+        if !["toy1", "toy2", "toy3", "toy4", "toy5"].contains(&self.hasher) && !items.iter().any(|i| matches!(i, Item::Panic(_))) {
             let probe: Vec<String> = vec!["d:1".into(), "d:1".into(), "lz:12345".into(), "di:4:4294967296:7".into()];
             let with_probe = |seed: &[B], ops: &[String]| -> Option<Vec<Item>> {
                 let mut all = ops.to_vec();
@@ -1001,7 +1025,7 @@ impl<'a> Job for TableJob<'a> {
 // ------------------------------------------------------------------------------------ gen
 fn rand_seed(rng: &mut Rng, field: &str) -> String {
     let m = modulus(field);
-    let n = *rng.pick(&[0usize, 1, 1, 2, 3, 4, 4, 6]);
+    let n = *rng.pick(&[0usize, 1, 1, 2, 3, 4, 4, 6, 7, 8, 9, 15, 16, 17]);
     if n == 0 {
         return "-".into();
     }
@@ -1112,6 +1136,70 @@ fn gen_all(rng: &mut Rng, tier: Tier, n: usize, emit: &mut dyn FnMut(String)) {
         emit(format!("run {} f64 7 rs:00 d:1 d:1", h));
         emit(format!("run {} f64 7 d:2 d:3 di:5:64:3 d:1 d:1", h));
         emit(format!("run {} f64 7 di:5:64:3 d:1 d:1", h));
+    }
+    // --- hardening: degenerate digests (all-zero: 64 "leading zeros", every integer 0, every element 0)
+    for f in fields {
+        emit(format!("run toy3 {} 1 lz:0 lz:7 gr:0 gr:64 gr:65 d:1 d:2 d:3 di:5:8:3 rs:00 d:1 lz:9", f));
+        emit(format!("run toy3 {} - di:255:256:0 di:1000:1024:1 d:2", f));
+    }
+    // --- hardening: more than 1000 PRNG calls since the last reseed, for every element type (high-rejection ones
+    //     included), then every kind of operation: budgets and counters are per call, the counter restarts only at
+    //     reseed / draw_integers
+    for (h, f) in [("toy0", "f64"), ("toy0", "f62"), ("toy0", "f128"), ("toy1", "f64"), ("toy1", "f62"), ("toy1", "f128"), ("b3_256", "f64"), ("b3_192", "f128"), ("rp62", "f62"), ("rp64", "f64"), ("sha3", "f62")] {
+        for deg in 1..=3 {
+            if f == "f128" && deg == 3 {
+                continue;
+            }
+            let draws = vec![format!("d:{}", deg); 1001].join(" ");
+            emit(format!("run {} {} 8,9 rs:aa {} lz:3 d:1 d:2 di:6:64:11 d:{} rs:bb d:{} lz:3", h, f, draws, deg, deg));
+        }
+        // a failed draw (toy2 never yields an element) consumes exactly 1000 calls; what follows depends on it
+    }
+    for f in fields {
+        emit(format!("run toy2 {} 1 d:1 lz:4 d:2 di:3:16:5 d:1 rs:01 d:1", f));
+    }
+    // --- hardening: a candidate accepted exactly at the 1000th PRNG call of a draw (toy4: on the retry budget) and only
+    //     at the 1001st (toy5: just beyond it), several seeds so that the accepted digest is canonical for some
+    for f in fields {
+        for deg in 1..=3 {
+            if f == "f128" && deg == 3 {
+                continue;
+            }
+            for seed in 1..=8 {
+                emit(format!("run toy4 {} {} d:{} d:{} lz:1000 lz:999 di:3:16:5 d:{} rs:0{} d:{}", f, seed, deg, deg, deg, seed, deg));
+                emit(format!("run toy5 {} {} d:{} d:{} lz:1001 rs:0{} d:{}", f, seed, deg, deg, seed, deg));
+            }
+        }
+    }
+    // --- hardening: every order of draw / draw_integers / reseed of length <= 4 (state carried across operations)
+    {
+        let alphabet = ["d:1", "d:2", "di:3:16:", "rs:"];
+        let mut hists: Vec<Vec<usize>> = vec![];
+        for len in 1..=4u32 {
+            for code in 0..4usize.pow(len) {
+                hists.push((0..len).map(|k| code / 4usize.pow(k) % 4).collect());
+            }
+        }
+        for (h, f) in [("toy0", "f64"), ("toy0", "f62"), ("toy1", "f128"), ("b3_256", "f64"), ("rp62", "f62"), ("sha3", "f128"), ("rpj64", "f64")] {
+            for hist in &hists {
+                let toks: Vec<String> = hist
+                    .iter()
+                    .enumerate()
+                    .map(|(i, a)| match *a {
+                        2 => format!("di:3:16:{}", i),
+                        3 => format!("rs:0{}", i),
+                        a => alphabet[a].to_string(),
+                    })
+                    .collect();
+                emit(format!("run {} {} 2,3 {} d:1 lz:1", h, f, toks.join(" ")));
+            }
+        }
+    }
+    // --- hardening: requested count against the domain size, on / below / above
+    for (h, f) in [("toy0", "f64"), ("rp64", "f64"), ("b3_192", "f62")] {
+        for (n, dom) in [(255u64, 256u64), (256, 256), (257, 256), (15, 16), (16, 16), (17, 16), (1, 1), (2, 4294967296), (4294967295, 4294967296)] {
+            emit(format!("run {} {} 4 d:1 di:{}:{}:1 d:1", h, f, n, dom));
+        }
     }
     // --- random histories, toy hashers (modelled)
     let nt = default_n(tier, 9000, 120_000, n);
